@@ -84,7 +84,7 @@ def tasks(tier):
     out += [("hier", k) for k in range(len(HIER))]
     out += [("ff", e, kind) for e in ("pos", "neg") for kind in ("noreset", "sync", "async")]
     from . import c04_designs
-    out += [("design", tier, k) for k in range(len(c04_designs.designs(tier)))]
+    out += c04_designs.design_tasks(tier)
     return out
 
 
@@ -503,7 +503,7 @@ def run_task(task):
         return unit_ff(task[1], task[2])
     if k == "design":
         from . import c04_designs
-        return c04_designs.run_design(task[1], task[2])
+        return c04_designs.run_design(task[1], task[2], task[3])
     if k in ("canary-design-nir", "canary-design-rtlil"):
         from . import c04_designs
         return c04_designs.run_design("quick", 7, break_n=(k == "canary-design-nir"), break_r=(k == "canary-design-rtlil"))
